@@ -308,7 +308,7 @@ def check(ctx, src):
                                   "Python rejects a Try with neither handlers nor finalbody", m.rel, call.lineno, witness="(try 1 (finally (do)))", detail="finalbody has a Pass fallback")
                     else:
                         ctx.unres("O2", key, f"handlers: {a}; finalbody: {b}")
-    ctx.require(n_sites >= 150, f"only {n_sites} AST construction sites found (162 confirmed by hand)")
+    ctx.need(n_sites >= 150, f"only {n_sites} AST construction sites found (162 confirmed by hand)")
     ctx.floor("O0", 150)
     ctx.floor("O2", 15)
     _o3(ctx, comp)
@@ -357,7 +357,7 @@ def _o3(ctx, comp):
         f = comp.rm.func(fname)
         ctx.require(f is not None, f"{fname} not found")
         cs = [c for c in pyq.calls(f) if pred(c)]
-        ctx.require(len(cs) >= 1, f"{fname}: the binding site the _nonconst rule watches is gone")
+        ctx.need(len(cs) >= 1, f"{fname}: the binding site the _nonconst rule watches is gone")
         for c in cs:
             arg = c.args[which] if isinstance(which, int) and len(c.args) > which else next((k.value for k in c.keywords if k.arg == which), None)
             ok = arg is not None and _through_nonconst(arg, world.fn(comp.rm, f), world)
@@ -402,7 +402,7 @@ def _o3(ctx, comp):
               comp.rm.rel, ag.lineno, witness="(+= [a b] 1) -> SystemError/TypeError from compile()", detail="target kind is restricted")
     ca = comp.rm.func("compile_assign")
     ann = pyq.contains(ca, lambda n: isinstance(n, ast.Call) and dotted(n.func) == "asty.AnnAssign")
-    ctx.require(ann is not None, "compile_assign: AnnAssign site not found")
+    ctx.need(ann is not None, "compile_assign: AnnAssign site not found")
     guard = pyq.contains(ca, _kind_guard)
     ctx.check(guard is not None, "O3", f"{comp.rm.rel}|compile_assign|AnnAssign.target-kind",
               "AnnAssign.target comes from _storeize unrestricted; Python rejects a tuple or list target in an annotated assignment",
@@ -442,7 +442,7 @@ def _funnel(ctx, src, comp):
     f = cp.func("HyASTCompiler.compile")
     ctx.require(f is not None, "HyASTCompiler.compile not found")
     tr = [t for t in pyq.walk_no_nested(f) if isinstance(t, ast.Try)]
-    ctx.require(len(tr) == 1, "HyASTCompiler.compile no longer has one try")
+    ctx.need(len(tr) == 1, "HyASTCompiler.compile no longer has one try")
     hs = [(norm(h.type) if h.type is not None else "<bare>", h) for h in tr[0].handlers]
     names = [n for n, _ in hs]
     key = f"{cp.rel}|HyASTCompiler.compile"
@@ -462,7 +462,7 @@ def _funnel(ctx, src, comp):
               cp.rel, f.lineno, detail="inside try")
     # pattern_macro: NoParseError -> syntax error
     pm = mc.func("pattern_macro.dec.wrapper_maker.wrapper")
-    ctx.require(pm is not None, "pattern_macro wrapper not found")
+    ctx.need(pm is not None, "pattern_macro wrapper not found")
     t = [t for t in pyq.walk_no_nested(pm) if isinstance(t, ast.Try)]
     ok = False
     if t:
@@ -475,7 +475,7 @@ def _funnel(ctx, src, comp):
     # macroexpand: the macro call runs under MacroExceptions
     me = mc.func("macroexpand")
     calls_m = [c for c in pyq.calls(me) if isinstance(c.func, ast.Name) and c.func.id == "m"]
-    ctx.require(len(calls_m) == 1, "macroexpand: the macro call site was not found")
+    ctx.need(len(calls_m) == 1, "macroexpand: the macro call site was not found")
     inside = False
     n = calls_m[0]
     while n is not None and n is not me:
